@@ -40,6 +40,12 @@ CHECKS = {
  "C18": ("exploration", "runtime monitoring: naive projection/subtraction on an order-preserving JSON tree vs the real keep_fields/remove_fields plugins in a real pipeline",
    "Hundreds of thousands of (selector set, event) cases through the real config path; content and survivor key order compared separately.",
    "independent order-preserving JSON parser", "DESIGN.md §3 C18"),
+ "C09": ("exploration", "runtime monitoring: per-batch retry/route oracle over recorded send attempts, give-ups, dead-queue hand-overs and commits of the real RetriableBatcher + Router inside real pipelines under -race",
+   "Held on K recorded executions with scripted failure plans: failed sends before give-up >= retry+1, no give-up for negative retry, pauses above the randomised exponential lower envelope, no commit before the final send returned or gave up, on exhaustion every event handed to the dead queue exactly once and committed only after its acknowledgement, error callback once; includes Stop while retries are pending.",
+   "pauses are lower bounds measured at the send boundary on the harness clock; the dead queue is a Batcher-based output that acknowledges", "DESIGN.md §3 C09"),
+ "C20": ("exploration", "runtime monitoring: admission oracle over the real Pipeline.In (sizes, cut-off, decoders, PassEvent) and a possible-worlds reference model of the antispam counter mechanism over sequential and concurrent IsSpam/Maintenance histories",
+   "Part A: every record is classified refused/delivered(+cut, mark) by an oracle written from the settings' documentation and compared with what In returns and what reaches the output; Part B: antispam decisions compared with a reference that keeps every documented reading open and checks the count-based claims.",
+   "antispam README is the specification of the counter mechanism; no wall clock", "DESIGN.md §3 C20"),
 }
 
 PENDING_REASON = "check not built yet in this round (runtime-monitoring design in DESIGN.md §3); not claimed until its monitor exists and is silent on the unchanged tree"
